@@ -213,3 +213,12 @@ _run0 = run
 def run(ctx, rep, tier):
     _run0(ctx, rep, tier)
     _proxy_guards(ctx, rep, tier)
+
+
+_run_k = run
+
+
+def run(ctx, rep, tier):
+    _run_k(ctx, rep, tier)
+    from .c05 import check_getitem_contract
+    check_getitem_contract(ctx, rep, "C04.h")      # the cycle check follows fall-through edges through set lookups
